@@ -49,7 +49,7 @@ STUBS = ["instances are really constructed with concrete arguments; their og_*/c
          "ProbeSchedule (value = step/(total+1)) and ProbeTransform (records the last factor) for the scheduled transform"]
 ASSUMPTIONS = ["floats are real numbers", "DataLoader hands batch b to worker b mod W and workers process their batches in order, every batch full"]
 OUTSIDE = ["binary64 rounding", "partial final batches", "pixel kernels"]
-BOUNDS = {"quick": "symbolic ranges: jitter b in [0,3], hue h in [0,0.5], sigma 0<=lb<=ub<=10, thresholds in [0,1] / 0..256, p in [0,1], degrees in [0,180], magnitudes in [0,10]; factors 0<=f1<=f2<=1 symbolic; scheduled: W<=4, B<=4, 3 batches per worker",
+BOUNDS = {"quick": "symbolic ranges: brightness (min,max) with 0<=min<=max<=3, contrast/saturation jitter b in [0,3], hue h in [0,0.5], sigma 0<=lb<=ub<=10, thresholds in [0,1] / 0..256, p in [0,1], degrees in [0,180], magnitudes in [0,10]; factors 0<=f1<=f2<=1 symbolic; scheduled: W<=4, B<=4, 3 batches per worker",
           "thorough": "same symbolic ranges (they are real-valued and unbounded within the stated intervals); scheduled: W<=6, B<=6, 4 batches per worker"}
 
 
@@ -84,8 +84,12 @@ def snapshot(t):
     return [getattr(o, a) for o, names in leaves(t) for a in names]
 
 
-def set_cj(cj, b0, b1, b2, h):
-    for name, b in (("brightness", b0), ("contrast", b1), ("saturation", b2)):
+def set_cj(cj, blo, bhi, b2, h):
+    # brightness given as an asymmetric (min, max) tuple (torchvision accepts any 0 <= min <= max),
+    # contrast / saturation as a scalar jitter b: [max(0, 1-b), 1+b]
+    cj.brightness_lb = cj.og_brightness_lb = blo
+    cj.brightness_ub = cj.og_brightness_ub = bhi
+    for name, b in (("contrast", b2), ("saturation", b2)):
         lb = max(0, 1 - b)
         setattr(cj, name + "_lb", lb)
         setattr(cj, "og_" + name + "_lb", lb)
@@ -110,7 +114,7 @@ def set_ms(ms, m, std, mn, mx):
 def build(kind, a, b, c, d):
     """really construct the transform, then install the symbolic ranges; returns (transform, identity snapshot or None)"""
     if kind in ("colorjitter", "random-colorjitter", "compose2"):
-        if not (0 <= a <= 3 and 0 <= b <= 3 and 0 <= c <= 3 and 0 <= d <= 0.5):
+        if not (0 <= a <= b <= 3 and 0 <= c <= 3 and 0 <= d <= 0.5):
             return None
         if kind == "colorjitter":
             t = KDColorJitter(brightness=0.4, contrast=0.4, saturation=0.2, hue=0.1)
